@@ -27,6 +27,10 @@ def run_history(seed, profile="general", n_bundles=20, invalid_prob=0.15, undo_p
   rec.init_schema = {}
   rec.bundle([['InitNewDoc']], tag="init")
   live = []     # stack of (event index, undo action reprs)
+  for uas in gen.setup_bundles():
+    _, reply, exc = rec.bundle(uas, note=uas_note(uas))
+    if exc is None:
+      live.append((len(rec.events), reply['undo']))
 
   for step in range(n_bundles):
     if peer_every and step % peer_every == peer_every - 1:
